@@ -241,7 +241,7 @@ Scenario make_c21() {
     s.assumptions = {"one-directional ('only if'): acceptance of every admissible announce is not required",
                      "handling time of an announce is only known to lie between send and barrier completion; spacing rules are judged with the widest possible gap, so boundary-exact spacings are generated but not flagged",
                      "the lockout rule is judged from a clean point (no rejection in the preceding 301 s) for rejections with no acceptance in between, with a sliding 120 s window until the first lockout begins; whether rejections during a lockout count again and whether an acceptance resets the count are left open by the statement"};
-    s.rule = "plan = throttle triple, PoW difficulty, min TTL, 1..3 peers, network knobs + 3..22 announces (12 kinds: admissible + each inadmissibility) with gaps around the interval/window/120 s/180 s boundaries; non-trivial = acceptances spaced near a throttle boundary or three rejections in a row; distinct = plan hash";
+    s.rule = "plan = throttle triple, PoW difficulty, min TTL, 1..3 peers, network knobs + 3..22 announces (12 kinds: admissible + each inadmissibility) with gaps around the interval/window/120 s/180 s boundaries; non-trivial = acceptances spaced near a throttle boundary or three rejections in a row; distinct = plan hash; a fifth of the runs end with four rejections of one peer at 0, 70..115, +55..75, +3..20 s after a clean point and a valid announce (sliding 120 s lock-out window)";
     s.gen = gen_c21; s.exec = exec_c21; s.kernel_knobs = rig_knobs;
     s.quick_runs = 2500; s.thorough_runs = 100000; s.quick_secs = 50; s.thorough_secs = 900;
     return s;
